@@ -45,6 +45,7 @@ class Ctx:
         self.rules: Dict[str, str] = {}
         self.analysed: Dict[str, Any] = {'functions': set(), 'call_sites': 0, 'paths': 0}
         self.notes: List[str] = []
+        self.soft_errors: List[str] = []
 
     # -- declarations
     def rule(self, rid: str, text: str, floor: int = 1) -> None:
@@ -88,6 +89,11 @@ class Ctx:
             self.fail(rule, where, construct, fail_detail, node)
         return cond
 
+    def need(self, cond: bool, msg: str) -> None:
+        """Soft instance floor: an analysis error unless a new violation is being reported anyway."""
+        if not cond:
+            self.soft_errors.append(msg)
+
     def unknown(self, rule: str, where, what: str, node=None):
         """A code shape none of the rule's idioms covers: exit 2, never exit 1."""
         site = where.short if isinstance(where, FuncInfo) else str(where)
@@ -118,7 +124,7 @@ def run_pack(pid: str, tier: str, check: Callable[[Ctx], None], *, proj: Optiona
             if n < floor:
                 floor_errors.append(f'rule {rid}: {n} instances analysed, floor is {floor} '
                                     f'(the rule no longer binds to the code it was confirmed on)')
-        res['floor_error'] = '; '.join(floor_errors) or None
+        res['floor_error'] = '; '.join(floor_errors + ctx.soft_errors) or None
         res['ctx'] = ctx
     except AnalysisError as e:
         res['error'] = str(e)
